@@ -45,6 +45,10 @@ func (i *ipfsAccessController) CanAppend(entry logac.LogEntry, p identityprovide
 	key := entry.GetIdentity().ID
 	for _, allowedKey := range i.writeAccess {
 		if allowedKey == key || allowedKey == "*" {
+			if err := accesscontroller.VerifyEntryIdentity(entry); err != nil {
+				return err
+			}
+
 			return p.VerifyIdentity(entry.GetIdentity())
 		}
 	}
